@@ -2,7 +2,7 @@
 use super::{bellman_ford::Paths, BoundedMeasure, NegativeCycle};
 use crate::prelude::*;
 use crate::visit::{IntoEdges, IntoNodeIdentifiers, NodeIndexable};
-use alloc::{vec, vec::Vec};
+use alloc::{collections::VecDeque, vec};
 
 /// \[Generic\] Compute shortest paths from node `source` to all other.
 ///
@@ -86,17 +86,18 @@ where
     distances[ix(source)] = K::default();
 
     // Queue of vertices capable of relaxation of the found shortest distances.
-    let mut queue: Vec<G::NodeId> = Vec::with_capacity(graph.node_bound());
+    let mut queue: VecDeque<G::NodeId> = VecDeque::with_capacity(graph.node_bound());
     let mut in_queue = vec![false; graph.node_bound()];
 
-    queue.push(source);
+    queue.push_back(source);
     in_queue[ix(source)] = true;
 
     // Keep track of how many times each vertex appeared
     // in the queue to be able to detect a negative cycle.
     let mut visits = vec![0; graph.node_bound()];
 
-    while let Some(i) = queue.pop() {
+    // First in, first out: the |V| bound on the visits below holds for a queue, not for a stack.
+    while let Some(i) = queue.pop_front() {
         in_queue[ix(i)] = false;
 
         // In a graph without a negative cycle, no vertex can improve
@@ -118,7 +119,7 @@ where
 
                 if !in_queue[ix(j)] {
                     in_queue[ix(j)] = true;
-                    queue.push(j);
+                    queue.push_back(j);
                 }
             }
         }
